@@ -46,6 +46,7 @@ theorem render_fromEval : ∀ (t : Tpl) (env : Env) (o : Out) (env' : Env),
   | .ite c thn els, env, o, env', hr => by
     simp only [render] at hr
     obtain ⟨v, _, hr⟩ := bind_ok hr
+    obtain ⟨tv, _, hr⟩ := bind_ok hr
     split at hr
     · exact renderL_fromEval thn env o env' hr
     · exact renderL_fromEval els env o env' hr
